@@ -172,23 +172,32 @@ def oracle(which, ht, hsrc, hdst, hdh, nbytes, p1, p2, p3, p4, p5, sid, id1, id2
 
     if which == "c07":
         departs = (not delivered) or ctrl == "DISCONNECT"
-        if departs:
-            if alive[0]:
-                return False, "sender still registered after leaving (%s)" % recv
-            for k, o in enumerate(w.O):
-                if sh("others")[k] in ("A",):
-                    closed = [p for hd, p in o.conn.frames() if hd["msg_type"] == cd.MT_CLIENT_CLOSED and W.pfield(p, "uid") == 1]
-                    if len(closed) != 1:
-                        return False, "monitor saw %d CLIENT_CLOSED notices, expected 1" % len(closed)
-                    p = closed[0]
-                    if not (W.pfield(p, "mod_id") == w.pre_ids[0] and W.pfield(p, "name") == S.name.encode()
-                            and W.pfield(p, "is_logger") == (1 if (sstate >= 1 and sh("slog", 0)) else 0)):
+        gone = not alive[0]
+        refused = ctrl in ("CONNECT", "CONNECT_V2") and sstate == 0 and delivered
+        if departs and not gone:
+            return False, "sender still registered after leaving (%s)" % recv
+        if gone and not (departs or refused or sh("sfail", 0)):
+            return False, "sender removed although it did not leave"
+        for k, o in enumerate(w.O):
+            if sh("others")[k] == "A":
+                closed = [p for hd, p in o.conn.frames() if hd["msg_type"] == cd.MT_CLIENT_CLOSED and hd["src_mod_id"] == 0
+                          and p[2] is not None and W.pfield(p, "uid") == 1]
+                if len(closed) != (1 if gone else 0):
+                    return False, "monitor saw %d CLIENT_CLOSED notices about the sender, expected %d" % (len(closed), 1 if gone else 0)
+                for p in closed:
+                    if not (W.pfield(p, "mod_id") == S.mod_id and W.pfield(p, "name") == S.name.encode()
+                            and W.pfield(p, "is_logger") == (1 if S.is_logger else 0)
+                            and W.pfield(p, "is_unique") == (1 if S.unique else 0)):
                         return False, "CLIENT_CLOSED does not describe the departed module"
+                    if departs and not refused and W.pfield(p, "mod_id") != w.pre_ids[0]:
+                        return False, "CLIENT_CLOSED carries another module id"
+        if gone:
             if S in mm.logger_modules:
                 return False, "departed module still a logger"
             for t, s in mm.subscriptions.items():
                 if S in s:
                     return False, "departed module still subscribed"
+        if departs:
             # id and name can be reused immediately
             if sstate >= 1 and 1 <= w.pre_ids[0] <= cd.DYN_MOD_ID_START:
                 clash = False
@@ -209,8 +218,6 @@ def oracle(which, ht, hsrc, hdst, hdh, nbytes, p1, p2, p3, p4, p5, sid, id1, id2
                         mm.process_message(fresh)
                     if not (fresh.connected and fresh.mod_id == w.pre_ids[0] and len(acks(fresh)) == 1):
                         return False, "id/name of the departed module could not be reused at once"
-        elif not alive[0] and not (ctrl in ("CONNECT", "CONNECT_V2") and sstate == 0) and not sh("sfail", 0):
-            return False, "sender removed although it did not leave"
         return True, ""
 
     # --- acknowledgement bookkeeping (C19) and identity (C06)
